@@ -32,6 +32,7 @@ RULE = (
     "(log, assign) or `stateIn` must run instead of the built-in. Non-trivial (frontends) = >=2 levels of nesting or a "
     "transition whose source and target live in different branches; (discovery) = a name found only via the other casing "
     "or a built-in shadow."
+    ' Also: Builder style: trailing candidates of an event may be declared through MachineBuilder.transition() behind the list declared on the state, and build() is called repeatedly; MachineLogic subclasses declare their methods as instance, static, inherited or mixin methods.'
 )
 ASSUMPTIONS = [
     "camelCase names are letter-only components, where every camelCase convention agrees",
